@@ -190,11 +190,11 @@ func (t *Type) String() string {
 		} else {
 			v = fmt.Sprintf("<%d x %s>", t.Len, t.Elem)
 		}
-		if noise.VecAlias && !t.Scalable {
+		if noise.VecAlias {
 			if name, ok := vecAlias[v]; ok {
 				return "%" + QuoteName(name)
 			}
-			if len(vecAlias) < 6 {
+			if len(vecAlias) < 6 || t.Scalable && len(vecAlias) < 10 { // scalable vectors are rarer: four more names are kept for them
 				name := fmt.Sprintf("$v%d", len(vecAlias))
 				vecAlias[v] = name
 				vecAliasDefs = append(vecAliasDefs, fmt.Sprintf("%%%s = type %s", QuoteName(name), v))
